@@ -14,6 +14,7 @@ use mahf::{
 };
 use mv::{
     hash_of, num_workers,
+    pipelines::{bits_pipeline, perm_pipeline, real_pipeline},
     observe::{for_each_individual, run_observed},
     problems::*,
     report::Local,
@@ -327,149 +328,6 @@ impl<'r> TemplateVisitor for Audit<'r> {
         audit_run(self.rep, self.what, &format!("{:?}", meta.tmpl), json!(meta), &cfg, problem, meta.seed, meta.parallel);
         self.rep.distinct("templates", hash_of(&meta.tmpl));
     }
-}
-
-fn pick_selection<P: mahf::problems::SingleObjectiveProblem>(rng: &mut SplitMix64, pop: u32) -> (Box<dyn Component<P>>, String) {
-    match rng.below(6) {
-        0 => (selection::All::new(), "All".into()),
-        1 => (selection::FullyRandom::new(pop), format!("FullyRandom({pop})")),
-        2 => (selection::Tournament::new(pop, 2), format!("Tournament({pop},2)")),
-        3 => (selection::RandomWithoutRepetition::new(pop.min(2)), "RandomWithoutRepetition(<=2)".into()),
-        4 => (selection::LinearRank::new(pop), format!("LinearRank({pop})")),
-        _ => (selection::ExponentialRank::new(pop, 0.5).unwrap(), format!("ExponentialRank({pop},0.5)")),
-    }
-}
-
-fn pick_replacement<P: mahf::problems::SingleObjectiveProblem>(rng: &mut SplitMix64, pop: u32) -> (Box<dyn Component<P>>, String) {
-    match rng.below(5) {
-        0 => (replacement::Merge::new(), "Merge".into()),
-        1 => (replacement::Generational::new(pop), "Generational".into()),
-        2 => (replacement::MuPlusLambda::new(pop), format!("MuPlusLambda({pop})")),
-        3 => (replacement::RandomReplacement::new(pop), format!("RandomReplacement({pop})")),
-        _ => (replacement::MuPlusLambda::new(pop + 2), format!("MuPlusLambda({})", pop + 2)),
-    }
-}
-
-fn rate(rng: &mut SplitMix64) -> f64 {
-    *rng.pick(&[0.0, 0.3, 1.0])
-}
-
-fn assemble<P: mahf::problems::SingleObjectiveProblem>(
-    rng: &mut SplitMix64,
-    init: Box<dyn Component<P>>,
-    pop: u32,
-    variations: Vec<(Box<dyn Component<P>>, String)>,
-    passes: u32,
-    mut desc: Vec<String>,
-) -> (Configuration<P>, String) {
-    let (sel, sd) = pick_selection::<P>(rng, pop);
-    let (rep_, rd) = pick_replacement::<P>(rng, pop);
-    let use_archive = rng.chance(0.5);
-    let archive_k = 1 + rng.usize(3);
-    let reinsertion = rng.chance(0.5);
-    let mid_eval = rng.chance(0.3);
-    desc.push(format!("while iterations<{passes} {{ {sd};"));
-    let nvar = variations.len();
-    let mut body: Vec<Box<dyn Component<P>>> = vec![sel];
-    for (k, (c, d)) in variations.into_iter().enumerate() {
-        body.push(c);
-        desc.push(d);
-        if mid_eval && k + 1 < nvar && k == 0 {
-            body.push(mahf::components::evaluation::PopulationEvaluator::new());
-            desc.push("evaluate".into());
-        }
-    }
-    body.push(mahf::components::evaluation::PopulationEvaluator::new());
-    body.push(mahf::components::evaluation::BestIndividualUpdate::new());
-    desc.push("evaluate; update_best".into());
-    if use_archive {
-        body.push(archive::ElitistArchiveUpdate::new(archive_k));
-        desc.push(format!("ElitistArchiveUpdate({archive_k})"));
-    }
-    body.push(rep_);
-    desc.push(rd);
-    if use_archive && reinsertion {
-        body.push(archive::ElitistArchiveIntoPopulation::new());
-        desc.push("ElitistArchiveIntoPopulation".into());
-    }
-    desc.push("}".into());
-    let cfg = Configuration::builder()
-        .do_(init)
-        .evaluate()
-        .update_best_individual()
-        .do_(mahf::components::Loop::new(LessThanN::iterations(passes), body))
-        .build();
-    (cfg, desc.join(" "))
-}
-
-fn real_pipeline(rng: &mut SplitMix64) -> (Configuration<Real>, String) {
-    let pop = 2 + rng.below(7) as u32;
-    let n = 1 + rng.usize(3);
-    let mut vars: Vec<(Box<dyn Component<Real>>, String)> = Vec::new();
-    for k in 0..n {
-        let r = rate(rng);
-        let both = rng.bool();
-        let v: (Box<dyn Component<Real>>, String) = match rng.below(if k == 0 { 13 } else { 12 }) {
-            0 => (mutation::NormalMutation::new(0.3, r), format!("NormalMutation(0.3,{r})")),
-            1 => (mutation::UniformMutation::new(0.5, r), format!("UniformMutation(0.5,{r})")),
-            2 => (mutation::PartialRandomSpread::new(r), format!("PartialRandomSpread({r})")),
-            3 => (mutation::ScrambleMutation::new(r), format!("ScrambleMutation({r})")),
-            4 => (recombination::UniformCrossover::new(r, both), format!("UniformCrossover({r},{both})")),
-            5 => (recombination::NPointCrossover::new(1, r, both), format!("NPointCrossover(1,{r},{both})")),
-            6 => (recombination::ArithmeticCrossover::new(r, both), format!("ArithmeticCrossover({r},{both})")),
-            7 => (boundary::Saturation::new(), "Saturation".into()),
-            8 => (boundary::Toroidal::new(), "Toroidal".into()),
-            9 => (boundary::Mirror::new(), "Mirror".into()),
-            10 => (boundary::CompleteOneTailedNormalCorrection::new(), "CompleteOneTailedNormalCorrection".into()),
-            11 => (mahf::components::utils::populations::DuplicatePopulation::new(), "DuplicatePopulation".into()),
-            _ => (swarm::bh::BlackHoleParticlesUpdate::new(), "BlackHoleParticlesUpdate".into()),
-        };
-        vars.push(v);
-    }
-    let passes = 1 + rng.below(5) as u32;
-    assemble(rng, initialization::RandomSpread::new(pop), pop, vars, passes, vec![format!("RandomSpread({pop}); evaluate; update_best;")])
-}
-
-fn bits_pipeline(rng: &mut SplitMix64) -> (Configuration<Bits>, String) {
-    let pop = 2 + rng.below(7) as u32;
-    let n = 1 + rng.usize(3);
-    let mut vars: Vec<(Box<dyn Component<Bits>>, String)> = Vec::new();
-    for _ in 0..n {
-        let r = rate(rng);
-        let both = rng.bool();
-        let v: (Box<dyn Component<Bits>>, String) = match rng.below(5) {
-            0 => (mutation::BitFlipMutation::new(r), format!("BitFlipMutation({r})")),
-            1 => (mutation::PartialRandomBitstring::new(0.5, r), format!("PartialRandomBitstring(0.5,{r})")),
-            2 => (mutation::ScrambleMutation::new(r), format!("ScrambleMutation({r})")),
-            3 => (recombination::UniformCrossover::new(r, both), format!("UniformCrossover({r},{both})")),
-            _ => (recombination::NPointCrossover::new(1, r, both), format!("NPointCrossover(1,{r},{both})")),
-        };
-        vars.push(v);
-    }
-    let passes = 1 + rng.below(5) as u32;
-    assemble(rng, initialization::RandomBitstring::new_uniform(pop), pop, vars, passes, vec![format!("RandomBitstring({pop}); evaluate; update_best;")])
-}
-
-fn perm_pipeline(rng: &mut SplitMix64, dim: usize) -> (Configuration<Perm>, String) {
-    let pop = 2 + rng.below(7) as u32;
-    let n = 1 + rng.usize(3);
-    let mut vars: Vec<(Box<dyn Component<Perm>>, String)> = Vec::new();
-    for _ in 0..n {
-        let r = rate(rng);
-        let both = rng.bool();
-        let k = 2 + rng.below(dim as u64 - 1) as u32;
-        let v: (Box<dyn Component<Perm>>, String) = match rng.below(6) {
-            0 => (mutation::SwapMutation::new(k).unwrap(), format!("SwapMutation({k})")),
-            1 => (mutation::common::InversionMutation::new::<Perm, usize>(), "InversionMutation".into()),
-            2 => (mutation::common::InsertionMutation::new(), "InsertionMutation".into()),
-            3 => (mutation::common::TranslocationMutation::new(), "TranslocationMutation".into()),
-            4 => (mutation::ScrambleMutation::new(r), format!("ScrambleMutation({r})")),
-            _ => (recombination::CycleCrossover::new(r, both), format!("CycleCrossover({r},{both})")),
-        };
-        vars.push(v);
-    }
-    let passes = 1 + rng.below(5) as u32;
-    assemble(rng, initialization::RandomPermutation::new(pop), pop, vars, passes, vec![format!("RandomPermutation({pop}); evaluate; update_best;")])
 }
 
 fn pipelines(rep: &Reporter, n: usize) {
